@@ -41,7 +41,7 @@ arr_spec = st.one_of(
                            'seed': st.integers(0, 2 ** 20),
                            'a': st.sampled_from([0.1, 0.3, -0.7, 1.1, 7.7, 123.456])}),
     # very large constants: the mean of n equal samples is not exact and the squared residual overflows
-    st.fixed_dictionaries({'dist': st.just('const_huge'), 'n': st.integers(1, 60), 'e': st.integers(150, 305),
+    st.fixed_dictionaries({'dist': st.just('const_huge'), 'n': st.integers(1, 60), 'e': st.one_of(st.integers(150, 305), st.just(307)),
                            'sign': st.sampled_from([1, -1]), 'm': gen.finite(1.0, 9.99)}),
     st.fixed_dictionaries({'dist': st.just('const_exact'), 'n': st.integers(1, 60),
                            'a': st.sampled_from([0.0, 1.0, -2.5, 1024.0, 0.125])}),
@@ -59,7 +59,9 @@ arr_spec = st.one_of(
 custom = st.one_of(st.none(), st.none(),
                    st.fixed_dictionaries({'form': st.just('scalar'), 'v': gen.finite(1e-3, 1e3)}),
                    st.fixed_dictionaries({'form': st.just('pair'), 'v': st.tuples(gen.finite(1e-3, 1e3), gen.finite(1e-3, 1e3))}),
-                   st.fixed_dictionaries({'form': st.just('0d'), 'v': gen.finite(1e-3, 1e3)}))
+                   st.fixed_dictionaries({'form': st.just('0d'), 'v': gen.finite(1e-3, 1e3)}),
+                   # a very small supplied deviation: every non-zero residual saturates, a zero residual must not
+                   st.fixed_dictionaries({'form': st.just('scalar'), 'v': gen.finite(1e-18, 1e-12)}))
 
 call_spec = st.fixed_dictionaries({'re': arr_spec, 'im': arr_spec, 'custom': custom,
                                    'reset': st.sampled_from([False, False, False, False, True])})
@@ -124,7 +126,8 @@ def is_constant(x):
 def ref_stats(x, N):
     """Mean / deviation of the leading min(N, len) samples; exactly 0 deviation for constant input."""
     lead = x[:min(N, len(x))]
-    m = float(np.mean(lead))
+    # a constant block has that constant as its mean (summing equal samples may round or overflow), and zero deviation
+    m = float(lead[0]) if is_constant(lead) else float(np.mean(lead))
     s = 0.0 if is_constant(lead) else float(np.std(lead))
     return m, s
 
